@@ -173,11 +173,14 @@ func (t *Tree) RandomBody(b *Builder, prof Profile) {
 	party := func() (*Actor, *Actor) {
 		r, h := t.Env.A(Renter), t.Env.A(Host)
 		if prof.WalletHeavy {
-			switch t.Rng.IntN(3) {
+			switch t.Rng.IntN(4) {
 			case 0:
 				r = t.Env.A(Wallet)
 			case 1:
 				h = t.Env.A(Wallet)
+			case 2:
+				// both payouts of one contract go to the wallet
+				r, h = t.Env.A(Wallet), t.Env.A(Wallet)
 			}
 		}
 		return r, h
